@@ -1,10 +1,11 @@
 (* driver `persist` (C14): concrete instance of the persistence model, case type,
    model-vs-implementation comparison and the verified boolean observer of the
-   property on the implementation's own observations.  std++ is used only
-   through Model/Persist.v and Proofs/Persist.v. *)
+   property on the implementation's own observations.  Depends on the model
+   only (not on Proofs/Persist.v), so the implementation's observations can
+   still be judged when a proof obligation has broken; the lemmas relating the
+   observer to the theorems are in Proofs/PersistDrv.v. *)
 From stdpp Require Import gmap.
 From F2G Require Export Model.Persist.
-From F2G Require Import Proofs.Persist.
 From F2G Require Import Drv.Common.
 Open Scope Z_scope.
 
@@ -44,6 +45,8 @@ Record case := mkCase {
   c_inflight : option cbop;    (* kill cases: the operation the worker was in when it was killed *)
   c_ops : list cop;            (* operations whose outputs were observed *)
   c_obs : list cout;           (* impl: their outputs *)
+  c_raw : list (option (list Z)); (* impl: ids present per bucket afterwards, read with bbolt directly
+                                     ([KData; KMap], None = no such bucket; [] = not observed) *)
 }.
 
 (* the histories the crash relation allows before the observed operations *)
@@ -69,12 +72,32 @@ Definition out_eqb (a b : cout) : bool :=
   end.
 
 Definition m_run := run c_encode c_decode.
-Definition model_obs (h : list cop) (ops : list cop) : list cout :=
-  snd (m_run (fst (m_run db_init h)) ops).
+Definition model_final (h : list cop) (ops : list cop) : db cbytes * list cout :=
+  m_run (fst (m_run db_init h)) ops.
+Definition model_obs (h : list cop) (ops : list cop) : list cout := snd (model_final h ops).
 
-(* model (of the code as written) disagrees with the implementation *)
+(* the bucket-exists flags and key sets of the model's final state against the raw dump *)
+Definition all_ids : list Z := [0; 1; 2; 3].
+Definition has_key (m : gmap Z cbytes) (id : Z) : bool := match m !! id with Some _ => true | None => false end.
+Definition bucket_matches (b : option (gmap Z cbytes)) (r : option (list Z)) : bool :=
+  match b, r with
+  | None, None => true
+  | Some m, Some l => forallb (fun id => Bool.eqb (has_key m id) (existsb (Z.eqb id) l)) all_ids
+                      && forallb (has_key m) l
+  | _, _ => false
+  end.
+Definition raw_matches (s : db cbytes) (raw : list (option (list Z))) : bool :=
+  match raw with
+  | [] => true
+  | [rd; rm] => bucket_matches (get_bucket KData s) rd && bucket_matches (get_bucket KMap s) rm
+  | _ => false
+  end.
+
+(* model (of the code as written) disagrees with the implementation: outputs, or the raw
+   bucket contents (e.g. an undecodable entry that was reported missing but not removed) *)
 Definition mismatch (c : case) : bool :=
-  negb (existsb (fun h => list_eqb out_eqb (model_obs h (c_ops c)) (c_obs c)) (hists c)).
+  negb (existsb (fun h => let r := model_final h (c_ops c) in
+                          list_eqb out_eqb (snd r) (c_obs c) && raw_matches (fst r) (c_raw c)) (hists c)).
 
 (* ---- the property, judged on the implementation's own observations ---- *)
 Definition x_trace := expected_trace c_decode c_encodable.
@@ -118,20 +141,6 @@ Proof.
   unfold holdsb, Holds. rewrite existsb_exists. split.
   - intros [h [Hin E]]. exists h. split; [exact Hin|]. apply (list_eqb_eq _ out_eqb_eq) in E. congruence.
   - intros [h [Hin E]]. exists h. split; [exact Hin|]. apply (list_eqb_eq _ out_eqb_eq). congruence.
-Qed.
-
-(* the model of the code satisfies Holds on every case it generates itself: the
-   two observers coincide (this is C14_history instantiated), so a case with
-   holdsb = false is a disagreement between the implementation and the theorem *)
-Lemma model_obs_expected h ops : model_obs h ops = x_trace (rev h) ops.
-Proof.
-  unfold model_obs, m_run, x_trace.
-  exact (run_history_from c_encode c_decode c_encodable c_enc_dec c_enc_able h ops).
-Qed.
-Lemma mismatch_iff_not_holds c : mismatch c = negb (holdsb c).
-Proof.
-  unfold mismatch, holdsb. f_equal. induction (hists c) as [|h r IH]; [reflexivity|].
-  cbn [existsb]. rewrite IH, model_obs_expected. reflexivity.
 Qed.
 
 (* no recorded finding for this property: every failing case is a violation *)
